@@ -1127,3 +1127,100 @@ Qed.
 
 Theorem rs_reachable_wf : forall mode cfg ss, rs_wf cfg (fst (rs_run mode cfg rs_init ss)).
 Proof. intros. apply rs_run_wf, rs_wf_init. Qed.
+
+(** * why an append is answered with an error *)
+Lemma rs_hash_gen_id gen key : rs_hash (rs_gen_id gen (rs_hash key)) = rs_hash key.
+Proof. unfold rs_gen_id, rs_hash. rewrite N.add_comm, N.mod_add by discriminate. apply N.mod_mod. discriminate. Qed.
+
+Lemma rs_build_none now key : forall evs gen g', rs_build evs (rs_hash key) now gen = (None, g') ->
+  exists ev, In ev evs /\ rs_ts_nanos (rn_ts ev) now = None.
+Proof.
+  induction evs as [|ev evs IH]; intros gen g' H; simpl in H; [discriminate|].
+  destruct (match rn_eid ev with Some i => (i, gen) | None => (rs_gen_id gen (rs_hash key), gen + 1) end) as [id gen1].
+  destruct (rs_ts_nanos (rn_ts ev) now) as [ns|] eqn:T.
+  - destruct (rs_build evs (rs_hash key) now gen1) as [[r|] g] eqn:B; [discriminate|].
+    destruct (IH _ _ B) as (x & Hx & Tx). exists x. split; [right; exact Hx|exact Tx].
+  - exists ev. split; [left; reflexivity|exact T].
+Qed.
+
+Lemma rs_build_badhash now key : forall evs gen bs g', rs_build evs (rs_hash key) now gen = (Some bs, g') ->
+  forallb (fun b => rs_hash (rb_id b) =? rs_hash key) bs = false ->
+  exists ev i, In ev evs /\ rn_eid ev = Some i /\ rs_hash i <> rs_hash key.
+Proof.
+  induction evs as [|ev evs IH]; intros gen bs g' H F; simpl in H.
+  - inversion H; subst. discriminate.
+  - destruct (rn_eid ev) as [i|] eqn:Ei; destruct (rs_ts_nanos (rn_ts ev) now) as [ns|]; try discriminate.
+    + destruct (rs_build evs (rs_hash key) now gen) as [[r|] g] eqn:B; [|discriminate].
+      inversion H; subst. simpl in F. apply andb_false_iff in F. destruct F as [F|F].
+      * exists ev, i. split; [left; reflexivity|]. split; [exact Ei|]. apply N.eqb_neq. exact F.
+      * destruct (IH _ _ _ B F) as (x & j & Hx & Ej & Hj). exists x, j. split; [right; exact Hx|tauto].
+    + destruct (rs_build evs (rs_hash key) now (gen + 1)) as [[r|] g] eqn:B; [|discriminate].
+      inversion H; subst. simpl in F. rewrite rs_hash_gen_id, N.eqb_refl in F. simpl in F.
+      destruct (IH _ _ _ B F) as (x & j & Hx & Ej & Hj). exists x, j. split; [right; exact Hx|tauto].
+Qed.
+
+(** the RESP-level reasons to refuse an append before it reaches the store *)
+Definition rs_refused (cfg : rs_cfg) (key : N) (evs : list rs_newev) (now : N) : Prop :=
+  (rc_strict cfg = true /\ exists ev, In ev evs /\ rs_strict_ok (rn_xv ev) = false) \/
+  (exists ev, In ev evs /\ rs_ts_nanos (rn_ts ev) now = None) \/
+  evs = [] \/
+  (exists ev i, In ev evs /\ rn_eid ev = Some i /\ rs_hash i <> rs_hash key).
+
+Lemma rs_forallb_false {A} (p : A -> bool) l : forallb p l = false -> exists x, In x l /\ p x = false.
+Proof.
+  induction l as [|x l IH]; simpl; [discriminate|]. intros H. apply andb_false_iff in H. destruct H as [H|H].
+  - exists x. split; [left; reflexivity|exact H].
+  - destruct (IH H) as (y & Hy & Py). exists y. split; [right; exact Hy|exact Py].
+Qed.
+
+Theorem rs_mappend_error : forall mode cfg st pk evs now fits st' e,
+  rs_handle mode cfg st (RqMAppend pk evs now fits) = (st', ROk (RpErr e)) ->
+  (e = EInvalidArg /\ rs_refused cfg pk evs now) \/
+  (exists bs g l' r, rs_build evs (rs_hash pk) now (rs_gen st) = (Some bs, g) /\
+     spec_append (rs_logs st (rs_bucket cfg (rs_pid cfg pk))) (rs_txn cfg st pk bs) fits = (l', inr r) /\ e = rs_err_of r).
+Proof.
+  intros mode cfg st pk evs now fits st' e H.
+  unfold rs_handle in H. destruct ((rc_parts cfg =? 0) || (rc_buckets cfg =? 0)); [discriminate|].
+  unfold rs_mappend in H.
+  destruct (rc_strict cfg && negb (forallb (fun ev => rs_strict_ok (rn_xv ev)) evs)) eqn:S.
+  { left. injection H as _ <-. split; [reflexivity|]. left. apply andb_true_iff in S. destruct S as (S1 & S2).
+    split; [exact S1|]. apply negb_true_iff in S2. apply rs_forallb_false in S2. exact S2. }
+  destruct (rs_build evs (rs_hash pk) now (rs_gen st)) as [[bs|] g] eqn:B.
+  2:{ left. injection H as _ <-. split; [reflexivity|]. right. left. eapply rs_build_none. exact B. }
+  destruct (match bs with [] => true | _ :: _ => false end) eqn:Hnil.
+  { left. injection H as _ <-. split; [reflexivity|]. right. right. left.
+    destruct bs; [|discriminate]. apply rs_build_ok in B. destruct B as (_ & _ & L). destruct evs; [reflexivity|discriminate]. }
+  destruct (negb (forallb (fun b => rs_hash (rb_id b) =? rs_hash pk) bs)) eqn:Hh.
+  { left. injection H as _ <-. split; [reflexivity|]. right. right. right. apply negb_true_iff in Hh.
+    eapply rs_build_badhash; eassumption. }
+  destruct (rs_exec cfg st pk bs g fits) as [st1 [news|r]] eqn:E.
+  - destruct (rs_recon_versions _ _ _); discriminate.
+  - right. apply rs_exec_rej in E. destruct E as (_ & l' & E). injection H as _ <-.
+    exists bs, g, l', r. split; [reflexivity|]. split; [exact E|reflexivity].
+Qed.
+
+Theorem rs_append_error : forall mode cfg st ev pk dflt now fits st' e,
+  rs_handle mode cfg st (RqAppend ev pk dflt now fits) = (st', ROk (RpErr e)) ->
+  let key := match pk with Some k => k | None => dflt end in
+  ((e = EInvalidArg \/ e = EInvalidEventId) /\ rs_refused cfg key [ev] now) \/
+  (exists bs g l' r, rs_build [ev] (rs_hash key) now (rs_gen st) = (Some bs, g) /\
+     spec_append (rs_logs st (rs_bucket cfg (rs_pid cfg key))) (rs_txn cfg st key bs) fits = (l', inr r) /\ e = rs_err_of r).
+Proof.
+  intros mode cfg st ev pk dflt now fits st' e H. simpl.
+  unfold rs_handle in H. destruct ((rc_parts cfg =? 0) || (rc_buckets cfg =? 0)); [discriminate|].
+  unfold rs_append in H.
+  set (key := match pk with Some k => k | None => dflt end) in *.
+  destruct (rc_strict cfg && negb (rs_strict_ok (rn_xv ev))) eqn:S.
+  { left. injection H as _ <-. split; [left; reflexivity|]. left. apply andb_true_iff in S. destruct S as (S1 & S2).
+    split; [exact S1|]. exists ev. split; [left; reflexivity|]. apply negb_true_iff. exact S2. }
+  destruct (rs_build [ev] (rs_hash key) now (rs_gen st)) as [[bs|] g] eqn:B.
+  2:{ left. injection H as _ <-. split; [left; reflexivity|]. right. left. eapply rs_build_none. exact B. }
+  destruct (negb (forallb (fun b => rs_hash (rb_id b) =? rs_hash key) bs)) eqn:Hh.
+  { left. injection H as _ <-. split; [right; reflexivity|]. right. right. right. apply negb_true_iff in Hh.
+    eapply rs_build_badhash; eassumption. }
+  destruct (rs_exec cfg st key bs g fits) as [st1 [news|r]] eqn:E.
+  - exfalso. destruct (rs_stream_versions news) as [|[k v] [|]]; try discriminate.
+    destruct news; try discriminate. destruct bs; try discriminate. destruct (_ =? _); discriminate.
+  - right. apply rs_exec_rej in E. destruct E as (_ & l' & E). injection H as _ <-.
+    exists bs, g, l', r. split; [exact B|]. split; [exact E|reflexivity].
+Qed.
